@@ -799,3 +799,97 @@ func carriedInto(v ssa.Value, l *natLoop) ssa.Value {
 	}
 	return rec(v)
 }
+
+// R15CountLoop — a packed element count and the loop that packs the elements talk about the same list.
+func R15CountLoop(c *Ctx) {
+	const rule = "R15-count-loop"
+	c.R.Rule(rule, "in PatchConfig every AddInt(len(L)) that announces a list is followed by a loop that ranges over the same list L — the same SSA value, or two loads of the same field path with no possible store to it in between: a count taken before an element is appended (or from another list) makes the Demon read the wrong number of records and misparse everything after them", 3)
+	fn := c.P.Func(PkgBuilder, "Builder.PatchConfig")
+	if fn == nil {
+		c.R.Anchor(rule, "builder.(*Builder).PatchConfig")
+		return
+	}
+	fname := FuncShort(fn)
+	loops := naturalLoops(fn)
+	// the slice a range loop iterates: the header (or its preheader) computes len(y)
+	rangedSlice := func(l *natLoop) (ssa.Value, ssa.Instruction) {
+		// the rangeindex phi is compared with len(y) computed in a predecessor of the header outside the loop
+		for _, p := range l.header.Preds {
+			if l.body[p] {
+				continue
+			}
+			for i := len(p.Instrs) - 1; i >= 0; i-- {
+				if call, ok := p.Instrs[i].(*ssa.Call); ok && CalleeName(call) == "builtin.len" {
+					return call.Call.Args[0], call
+				}
+			}
+		}
+		return nil, nil
+	}
+	for _, b := range fn.Blocks {
+		for _, in := range b.Instrs {
+			call, ok := in.(*ssa.Call)
+			if !ok || CalleeName(call) != "(*Havoc/pkg/common/packer.Packer).AddInt" {
+				continue
+			}
+			args := CallArgs(call)
+			if len(args) != 1 {
+				continue
+			}
+			ln, ok := args[0].(*ssa.Call)
+			if !ok || CalleeName(ln) != "builtin.len" {
+				continue
+			}
+			counted := ln.Call.Args[0]
+			// the first loop after the count that packs something
+			var best *natLoop
+			var bestSlice ssa.Value
+			var bestLen ssa.Instruction
+			for _, l := range loops {
+				if !b.Dominates(l.header) {
+					continue
+				}
+				packs := false
+				for lb := range l.body {
+					for _, li := range lb.Instrs {
+						if lc, ok := li.(*ssa.Call); ok && strings.HasPrefix(CalleeName(lc), "(*Havoc/pkg/common/packer.Packer).Add") {
+							packs = true
+						}
+					}
+				}
+				if !packs {
+					continue
+				}
+				y, li := rangedSlice(l)
+				if y == nil {
+					continue
+				}
+				if best == nil || best.header.Dominates(l.header) == false && l.header.Dominates(best.header) {
+					best, bestSlice, bestLen = l, y, li
+				}
+			}
+			construct := "AddInt(len(L)) then loop over L"
+			if best == nil {
+				c.R.NoteOb(rule, fname, construct, c.pos(call.Pos()), "no packing loop follows this count")
+				continue
+			}
+			same := counted == bestSlice
+			if !same {
+				la, ok1 := counted.(*ssa.UnOp)
+				lb2, ok2 := bestSlice.(*ssa.UnOp)
+				if ok1 && ok2 {
+					ka, fa := pathKey(la.X)
+					kb, _ := pathKey(lb2.X)
+					if ka != "" && ka == kb && c.stableBetween(la, bestLen, fa) {
+						same = true
+					}
+				}
+			}
+			if same {
+				c.R.Ok(rule, fname, construct, c.pos(call.Pos()), "the count and the loop read the same list", true)
+			} else {
+				c.R.Bad(rule, fname, construct, c.pos(call.Pos()), "the announced count is the length of "+DescribeValue(counted)+" but the records are packed from "+DescribeValue(bestSlice)+": when the two differ (an element appended after the count) the Demon reads too few records and takes the next one for the following field")
+			}
+		}
+	}
+}
